@@ -436,31 +436,37 @@ class _Generator(Generator):
             encode_lines += member_encode_lines
             decode_lines += member_decode_lines
 
-        if type_.additions is not None and len(type_.additions) > 0:
+        if type_.additions is not None:
             additions_encode_lines, additions_decode_lines = (
                 self.format_sequence_additions(type_, checker))
 
             addition_condition = 'if(({}[0] & 0x80u) == 0x80u) {{'.format(
                 unique_present_mask)
-            encode_lines += [
-                '',
-                addition_condition
-            ] + indent_lines(additions_encode_lines) + [
-                '}'
-            ]
+
+            if len(type_.additions) > 0:
+                encode_lines += [
+                    '',
+                    addition_condition
+                ] + indent_lines(additions_encode_lines) + [
+                    '}'
+                ]
 
             decode_lines += [
                 '',
                 addition_condition
             ] + indent_lines(additions_decode_lines) + [
-                '}',
-                'else {'
-            ] + [
-                '    dst_p->{}is_{}_addition_present = false;'.format(
-                    self.location_inner('', '.'), canonical(addition.name))
-                for addition in type_.additions] + [
                 '}'
             ]
+
+            if len(type_.additions) > 0:
+                decode_lines += [
+                    'else {'
+                ] + [
+                    '    dst_p->{}is_{}_addition_present = false;'.format(
+                        self.location_inner('', '.'), canonical(addition.name))
+                    for addition in type_.additions] + [
+                    '}'
+                ]
 
         return encode_lines, decode_lines
 
@@ -503,9 +509,13 @@ class _Generator(Generator):
             '{} = (({} * 8u) - {});'.format(unique_addition_bits, unique_addition_length,
                                             unique_addition_unused_bits)]
 
-        fmt = 'uint8_t {{}}[{}];'.format(addition_mask_length)
-        unique_addition_mask = self.add_unique_variable(
-            fmt, 'addition_mask')
+        if addition_mask_length > 0:
+            fmt = 'uint8_t {{}}[{}];'.format(addition_mask_length)
+            unique_addition_mask = self.add_unique_variable(
+                fmt, 'addition_mask')
+        else:
+            # No known additions, only unknown ones to skip.
+            unique_addition_mask = None
 
         for i in range(addition_mask_length):
             encode_lines.append('{}[{}] = 0;'.format(unique_addition_mask, i))
@@ -534,15 +544,27 @@ class _Generator(Generator):
             'uint32_t {};', 'unknown_addition_bits')
         unique_mask = self.add_unique_decode_variable('uint8_t {};', 'mask')
 
+        if unique_addition_mask is not None:
+            decode_lines += [
+                'decoder_read_bytes(decoder_p,',
+                '                   {mask},'.format(mask=unique_addition_mask),
+                '                   ({read} < {defined}u) ? {read} : {defined}u);'.format(
+                    read=unique_addition_length, defined=addition_mask_length),
+                '',
+                '{} = {}[{}];'.format(unique_tmp_addition_mask, unique_addition_mask,
+                                      addition_mask_length - 1)
+            ]
+        else:
+            decode_lines.append('{} = 0;'.format(unique_tmp_addition_mask))
+
+        if len(type_.additions) % 8 == 0:
+            # The first unknown bit is in the next byte.
+            first_unknown_mask = 0
+        else:
+            first_unknown_mask = 0x80 >> (len(type_.additions) % 8)
+
         decode_lines += [
-            'decoder_read_bytes(decoder_p,',
-            '                   {mask},'.format(mask=unique_addition_mask),
-            '                   ({read} < {defined}u) ? {read} : {defined}u);'.format(
-                read=unique_addition_length, defined=addition_mask_length),
-            '',
-            '{} = {}[{}];'.format(unique_tmp_addition_mask, unique_addition_mask,
-                                  addition_mask_length - 1),
-            '{} = 0x{:02x};'.format(unique_mask, 0x80 >> (len(type_.additions) % 8)),
+            '{} = 0x{:02x};'.format(unique_mask, first_unknown_mask),
             '{} = 0;'.format(unique_unknown_addition_bits),
             '',
             'for ({i} = {first}; {i} < {bits}; {i}++) {{'.format(
